@@ -8,6 +8,9 @@ pub mod c04;
 pub mod c05;
 pub mod c06;
 pub mod c07;
+pub mod c13;
+pub mod c14;
+pub mod c19;
 pub mod c17;
 
 macro_rules! props {
@@ -42,5 +45,8 @@ props! {
     "C05" => c05::C05,
     "C06" => c06::C06,
     "C07" => c07::C07,
+    "C13" => c13::C13,
+    "C14" => c14::C14,
+    "C19" => c19::C19,
     "C17" => c17::C17,
 }
